@@ -462,3 +462,42 @@ func C12_WriteRead() {
 	vf.Assert(sameGlobalSlices(g1, g2), "same global values after reading back: "+p.Name)
 	vf.Reach("writeread")
 }
+
+// C12_Gen: the generated grammar family (gen.go) through the CLI's chain:
+// compile, run; RemoveDuplicates, run; write out and read back, run: same
+// results, same errors, same positions at each stage.
+func C12_Gen() {
+	ps := GenPrograms()
+	p := ps[vf.Choice("prog", len(ps))]
+	a, b := vf.Int64("a"), vf.Int64("b")
+	c := vf.Bool("c")
+	var co tengo.Object = tengo.FalseValue
+	if c {
+		co = tengo.TrueValue
+	}
+	inputs := map[string]tengo.Object{"a": &tengo.Int{Value: a}, "b": &tengo.Int{Value: b}, "c": co}
+	bc, g1, _, err := compileRaw(p.Src, inputs, []string{"a", "b", "c"}, nil)
+	if err != nil {
+		vf.Stop()
+	}
+	g2 := cloneGlobals(g1)
+	g3 := cloneGlobals(g1)
+	e1, p1, t1 := runBC(bc, g1)
+	bc.RemoveDuplicates()
+	msg := dedupOK(bc)
+	vf.Assert(msg == "", "constant pool sound after de-duplication: "+p.Name+": "+msg)
+	e2, p2, t2 := runBC(bc, g2)
+	vf.Assert(p1 == p2 && t1 == t2, "same Go panic before and after de-duplication: "+p.Name)
+	vf.Assert(errText(e1) == errText(e2), "same error text and positions after de-duplication: "+p.Name)
+	vf.Assert(sameGlobalSlices(g1, g2), "same global values after de-duplication: "+p.Name)
+	var bc2 *tengo.Bytecode
+	var werr error
+	res := vf.Guard(func() { bc2, werr = writeReadBack(bc, nil) }, 6000000)
+	vf.Assert(res == 0, "Encode/Decode return: "+p.Name+": "+vf.LastGuard())
+	vf.Assert(werr == nil, "bytecode is written and read back without error: "+p.Name)
+	e3, p3, t3 := runBC(bc2, g3)
+	vf.Assert(p1 == p3 && t1 == t3, "same Go panic before and after writing out and reading back: "+p.Name)
+	vf.Assert(errText(e1) == errText(e3), "same error text and positions after reading back: "+p.Name)
+	vf.Assert(sameGlobalSlices(g1, g3), "same global values after reading back: "+p.Name)
+	vf.Reach("gen")
+}
